@@ -12,6 +12,7 @@ import json
 import os
 import random
 import re
+import threading
 import time
 from concurrent.futures import ThreadPoolExecutor
 
@@ -294,6 +295,10 @@ def report_pass(module, cfg, path):
     raise vlib.Inconclusive("trace %s: more than 3 segments cannot be reconstructed" % os.path.basename(path))
 
 
+_confirm_lock = threading.Lock()
+_confirmed = set()
+
+
 def judge(prop, v, cov, label, module, report_cfg, prop_cfg, path, meta_of, extra_files=None):
     """Report pass, confirmation of each distinct defect on its own segment, strict pass on the rest."""
     # the normal case first: one strict pass (the property's invariants as TLC INVARIANTS) accepts the whole file
@@ -341,6 +346,13 @@ def judge(prop, v, cov, label, module, report_cfg, prop_cfg, path, meta_of, extr
     for k, occ in keys.items():
         sg, li, names, what = occ[0]
         segl = bysegs[sg]
+        with _confirm_lock:
+            first = k not in _confirmed
+            _confirmed.add(k)
+        if not first:
+            # the same defect was already confirmed (strict pass on its own segment, replay saved) on another trace of this run
+            log("  note: %s: %d more segment(s) show the defect [%s] that is confirmed and reported from another trace of this run" % (label, len(occ), k))
+            continue
         wd = vlib.scratch("verif-b44c-")
         sp = os.path.join(wd, "seg.ndjson")
         vlib.write_lines(sp, segl)
@@ -386,6 +398,7 @@ def drive(binary, args, what, timeout=1500):
 
 def run(prop, tier, seed, replay=None):
     t0 = time.time()
+    _confirmed.clear()
     v = vlib.Verdict(prop)
     cov = dict(mc_runs=[], schedule_sets=[], samples=[], traces_validated_against_impl=0, events_validated=0, per_mode=[],
                states=0, transitions=0)
@@ -507,5 +520,7 @@ def run(prop, tier, seed, replay=None):
                         "(2 putters; putter + expiring getter; 2 putters + getter; inbound put datagram vs Server.Put)")
                      + "; every line validated by TLC against Bep44Store.tla / GetPut.tla"))
     rc = v.finish()
+    if replay:
+        return rc       # a replay judges one stored schedule; the evidence file stays that of the last full run
     vlib.write_evidence(prop, tier, seed, cov, time.time() - t0, len(set(x["key"] for x in v.violations)), assumptions=ASSUMPTIONS)
     return rc
